@@ -10,6 +10,10 @@
 (*   g = "cql": type strings of system_schema (Cassandra 3+):              *)
 (*          TYPE := ID [ "<" TYPE { ", " TYPE } ">" ]                       *)
 (*   g = "compidx": the component_index of a key column.                   *)
+(*   g = "aggregate": the final_func / state_func names of a row of        *)
+(*       system_schema.aggregates (FINALFUNC is optional in CREATE         *)
+(*       AGGREGATE: the column may be null; the keyspace's functions are   *)
+(*       read by a separate query).                                        *)
 (* A base string is a sequence of tokens.  One TLC state per case: the     *)
 (* string itself, every truncation (character offset), every token        *)
 (* dropped, every bracket / separator duplicated, every bracket reversed   *)
@@ -86,7 +90,10 @@ Punct == {LP, RP, CM, CL, LT, GT, CS}
 St(t, g, b, mk, i, s, v) == [t |-> t, g |-> g, b |-> b, mk |-> mk, i |-> i, s |-> s, v |-> v, toks |-> <<>>]
 CompIdx == {-1, -2, 1, 7, 65536, 2147483647}
 
-TInit == \/ \E g \in {"marshal", "cql"} : \E b \in 1 .. Len(Bases(g)) : p = [St("base", g, b, "", 0, Join(Bases(g)[b]), 0) EXCEPT !.toks = Bases(g)[b]]
+\* i = 1: the name is the aggregate's final function, i = 2: its state function; "f1" exists
+FuncNames == {"", "f1", "nosuchfn"}
+TInit == \/ \E fn \in FuncNames, i \in {1, 2} : p = St("case", "aggregate", 0, "value", i, fn, 0)
+         \/ \E g \in {"marshal", "cql"} : \E b \in 1 .. Len(Bases(g)) : p = [St("base", g, b, "", 0, Join(Bases(g)[b]), 0) EXCEPT !.toks = Bases(g)[b]]
          \/ \E v \in CompIdx : p = St("case", "compidx", 0, "value", 0, "", v)
 TNext ==
   /\ p.t = "base"
